@@ -701,6 +701,12 @@ func (cs *Contracts) parseFile(path, pkg string) error {
 				return fmt.Errorf("%s:%d: expected 'cellfresh <func>: after \"callee\" argument <i>'", path, lineNo)
 			}
 			cs.Fields = append(cs.Fields, &FieldDecl{Type: strings.TrimSpace(cm[1]), Field: cm[2], Pkg: pkg, Kind: "cellfresh", Arg: cm[3], Props: append([]string(nil), props...)})
+		case "types":
+			// types covered   every named type of this package with exported methods has a methods clause
+			if err := flush(); err != nil {
+				return err
+			}
+			cs.Fields = append(cs.Fields, &FieldDecl{Type: "*", Field: "*", Pkg: pkg, Kind: "typescovered", Arg: strings.TrimSpace(rest), Props: append([]string(nil), props...)})
 		case "globals":
 			// globals immutable [except g1 g2 ...]   package-level variables of this package are only
 			// written by the package initialiser (no mutable global state)
